@@ -573,6 +573,59 @@ VERUS_LIFTS["aug_block"] = aug_block_range
 
 
 # ---------------------------------------------------------------------------
+# SHIFT / GOTO placement (C01): the statement `if self.grammar.is_nonterm(target_state_symbol) { gotos.. } else { actions.. }`
+# of LRTable::calc_states
+
+GOTO_DECLARED = ["new_state", "self", "state", "target_state_idx", "target_state_symbol"]
+GOTO_START = "if self.grammar.is_nonterm(target_state_symbol) {"
+
+
+def goto_block_range(repo):
+    rel = "rustemo-compiler/src/table/mod.rs"
+    src = rsx.Source(os.path.join(repo, rel))
+    imp = src.find_impl(r"^impl < 'g , 's > LRTable < 'g , 's >", has="calc_states")
+    fn = imp.child("fn", "calc_states")
+    t = src.toks
+    body_s = t[fn.body_open].e
+    body = src.text[body_s:t[fn.body_close].s]
+    if body.count(GOTO_START) != 1:
+        raise ExtractError("goto block: anchor `%s` not found exactly once in calc_states" % GOTO_START)
+    lo_off = body_s + body.index(GOTO_START)
+    lo = next(i for i in range(fn.body_open, fn.body_close) if t[i].s == lo_off)
+    # the statement: if <cond> { .. } [else { .. }]
+    k = lo
+    while t[k].text != "{":
+        k += 1
+    hi = src.match(k) + 1
+    nxt = src.sig(hi)
+    if t[nxt].text == "else":
+        k = src.sig(nxt + 1)
+        if t[k].text != "{":
+            raise ExtractError("goto block: `else if` chain where a two-armed if was declared")
+        hi = src.match(k) + 1
+    else:
+        raise ExtractError("goto block: the statement has lost its else arm")
+    block_text = src.text[t[lo].s:t[hi - 1].e]
+    outside = bound_names_outside(src, fn, lo, hi)
+    used = set(idents(src, lo, hi))
+    inside = bound_names_inside(src, lo, hi)
+    free = sorted(((outside & used) - inside) | ({"self"} if "self" in used else set()))
+    if free != GOTO_DECLARED:
+        raise ExtractError(f"goto block: free variables changed: now {free}, declared {GOTO_DECLARED}")
+    sha = hashlib.sha256(block_text.encode()).hexdigest()[:16]
+    meta = {"lift": "goto_block", "file": rel, "lines": [src.line_of(t[lo].s), src.line_of(t[hi - 1].s)], "sha256_16": sha, "free_variables": GOTO_DECLARED,
+            "note": "the two-armed `if self.grammar.is_nonterm(target_state_symbol) { .. } else { .. }` statement of calc_states, verbatim: `state` is the state popped "
+                    "from the queue (a local LRState, `&mut` here), `new_state` the loop variable of `for mut new_state in new_states` (read only: `&` here), "
+                    "`target_state_symbol` is `new_state.symbol` and `target_state_idx` the index of the state the transition leads to (both bound in front of the range)"}
+    header = ("impl<'g, 's> LRTable<'g, 's> {\n    fn goto_block(\n        &self,\n        state: &mut LRState<'g>,\n        new_state: &LRState<'g>,\n"
+              "        target_state_symbol: SymbolIndex,\n        target_state_idx: StateIndex,\n    ) {\n                ")
+    return header + block_text + "\n    }\n}\n", meta
+
+
+VERUS_LIFTS["goto_block"] = goto_block_range
+
+
+# ---------------------------------------------------------------------------
 # TokenIterator::next (C06): the whole body of <TokenIterator as Iterator>::next as an inherent method, so that it can
 # carry a precondition (Verus: a trait method implementation cannot declare `requires`).
 
